@@ -400,21 +400,20 @@ def kv_call(frm, method, *args):
 
 
 def op_register_interchain(ids, frm, chainsvc):
-    """put-if-absent of a record (InterchainManager.Register is callable by the service manager contract only since
-    22554672: the same ledger path - read the key, write it when absent, succeed - through the plugin contract)"""
-    return dict(tx=kv_call(frm, "Put", "service-" + chainsvc, "v7"), frm=frm,
-                body=("putabsent", ids.key(EMITTER, "service-" + chainsvc), 7), invalid=False, tag="register_interchain")
+    """InterchainManager.Register(chain:service): reads service-<id>, writes a fresh record when absent, succeeds"""
+    return dict(tx={"t": "bvm", "from": frm, "to": "c:interchain", "m": "Register", "args": [["s", chainsvc]]}, frm=frm,
+                body=("putabsent", ids.key("c:interchain", "service-1356:" + chainsvc), "OBS"), invalid=False, tag="register_interchain")
 
 
 def op_delete_interchain(ids, frm, chainsvc):
-    """Stub.Delete of the record (always succeeds)"""
-    return dict(tx=kv_call(frm, "Del", "service-" + chainsvc), frm=frm,
-                body=("bvm", ("touch", acct_id(EMITTER), ("jd", ids.key(EMITTER, "service-" + chainsvc), ("done",)))), invalid=False, tag="delete_interchain")
+    """InterchainManager.DeleteInterchain(full id): Stub.Delete of service-<id> (audit off: succeeds)"""
+    return dict(tx={"t": "bvm", "from": frm, "to": "c:interchain", "m": "DeleteInterchain", "args": [["s", "1356:" + chainsvc]]}, frm=frm,
+                body=("bvm", ("jd", ids.key("c:interchain", "service-1356:" + chainsvc), ("done",))), invalid=False, tag="delete_interchain")
 
 
 def op_get_interchain(ids, frm, chainsvc):
-    return dict(tx=kv_call(frm, "Has", "service-" + chainsvc), frm=frm,
-                body=("get", ids.key(EMITTER, "service-" + chainsvc)), invalid=False, tag="get_interchain")
+    return dict(tx={"t": "bvm", "from": frm, "to": "c:interchain", "m": "GetInterchain", "args": [["s", "1356:" + chainsvc]]}, frm=frm,
+                body=("get", ids.key("c:interchain", "service-1356:" + chainsvc)), invalid=False, tag="get_interchain")
 
 
 def op_kv(ids, frm, method, key, val=None):
